@@ -1,0 +1,313 @@
+//go:build verif
+
+// Contracts for headings, heading collection and the table of contents (properties C15 - TOC part - and C13 -
+// style ids emitted by the helpers), read by /verif/engine (govc).
+// Comments only: with or without the build tag this file adds no code to the package.
+//
+// C15 (TOC): "a generated or updated table of contents lists exactly the headings up to the requested level, in
+// document order with their text, and regenerating it is idempotent". The statement is made against three
+// recursive spec functions over the body, without ghost state:
+//   tocLevelOfId(id)      the heading level a paragraph style id stands for (0 = not a heading);
+//   tocRunsCat(rs, j)     the text of a paragraph: concatenation of the text of its first j runs;
+//   tocCount(es, j, m)    the number of TOC entries among the first j body elements: paragraphs whose style id is
+//                         a heading id of level 1..m and whose text is not empty (a heading without text has no
+//                         entry - Word does the same).
+// collectHeadings returns exactly tocCount entries, the one for body element j at index tocCount(es, j, m), with
+// the paragraph's text and level; GenerateTOC / UpdateTOC build the content control from that list, two elements
+// per entry, in that order. UpdateTOC replaces the content of the existing control in place, so the body keeps its
+// length and every element; because the control itself is not a paragraph, tocCount is the same before and after,
+// which makes a second UpdateTOC produce a control of the same shape from the same headings (idempotence).
+package document
+
+// ---- heading level of a style id ---------------------------------------------------------------------------
+// The first two switches of getHeadingLevel are literal tables; the fall-back ("heading" + digit in any letter
+// case) goes through strings.ToLower/HasPrefix/TrimPrefix, which are uninterpreted pure functions here: the spec
+// uses the very same terms, so the contract says that the code applies them as written, not what they compute.
+//@ spec tocParseInt(s string) int = ite(s == "1", 1, ite(s == "2", 2, ite(s == "3", 3, ite(s == "4", 4, ite(s == "5", 5, ite(s == "6", 6, ite(s == "7", 7, ite(s == "8", 8, ite(s == "9", 9, 0)))))))))
+//@ spec tocNumLevel(v string) int = ite(v == "1" || v == "2", 1, ite(v == "3", 2, ite(v == "4", 3, ite(v == "5", 4, ite(v == "6", 5, ite(v == "7", 6, ite(v == "8", 7, ite(v == "9", 8, ite(v == "10", 9, 0)))))))))
+//@ spec tocNameLevel(v string) int = ite(v == "Heading1" || v == "heading1" || v == "Title1", 1, ite(v == "Heading2" || v == "heading2" || v == "Title2", 2, ite(v == "Heading3" || v == "heading3" || v == "Title3", 3, ite(v == "Heading4" || v == "heading4" || v == "Title4", 4, ite(v == "Heading5" || v == "heading5" || v == "Title5", 5, ite(v == "Heading6" || v == "heading6" || v == "Title6", 6, ite(v == "Heading7" || v == "heading7" || v == "Title7", 7, ite(v == "Heading8" || v == "heading8" || v == "Title8", 8, ite(v == "Heading9" || v == "heading9" || v == "Title9", 9, 0)))))))))
+//@ spec tocPatLevel(v string) int = ite(strings.HasPrefix(strings.ToLower(v), "heading") && strings.TrimPrefix(strings.ToLower(v), "heading") != "", tocParseInt(strings.TrimPrefix(strings.ToLower(v), "heading")), 0)
+//@ spec tocLevelOfId(v string) int = ite(tocNumLevel(v) != 0, tocNumLevel(v), ite(tocNameLevel(v) != 0, tocNameLevel(v), tocPatLevel(v)))
+//@ spec tocLevel(p *Paragraph) int = ite(p.Properties != nil && p.Properties.ParagraphStyle != nil, tocLevelOfId(p.Properties.ParagraphStyle.Val), 0)
+
+//@ func parseInt
+//@ props C15
+//@ modifies nothing
+//@ ensures result == tocParseInt(s)
+
+//@ func (*Document).getHeadingLevel
+//@ props C15
+//@ requires paragraph != nil
+//@ modifies nothing
+//@ ensures result == tocLevel(paragraph)
+//@ ensures 0 <= result && result <= 9
+
+// ---- text of a paragraph -----------------------------------------------------------------------------------
+//@ spec tocRunsCat(rs []Run, j int) string = ite(j <= 0, "", tocRunsCat(rs, j - 1) + rs[j-1].Text.Content)
+//@ spec tocText(p *Paragraph) string = tocRunsCat(p.Runs, len(p.Runs))
+
+//@ func (*Document).extractParagraphText
+//@ props C15
+//@ requires paragraph != nil
+//@ modifies nothing
+//@ ensures result == old(tocText(paragraph))
+//@ loop 1
+//@   invariant 0 <= #i && #i <= len(paragraph.Runs) && unchangedHeap() && paragraph != nil
+//@   invariant sbContent(text) == old(tocRunsCat(paragraph.Runs, #i))
+//@   decreases len(paragraph.Runs) - #i
+
+// ---- heading collection ------------------------------------------------------------------------------------
+// tocIsEntry(x, m): body element x is a heading paragraph of level 1..m with text.
+//@ spec tocIsEntry(x any, m int) bool = isPara(x) && 0 < tocLevel(x.(*Paragraph)) && tocLevel(x.(*Paragraph)) <= m && tocText(x.(*Paragraph)) != ""
+//@ spec tocCount(es []any, j int, m int) int = ite(j <= 0, 0, tocCount(es, j - 1, m) + ite(tocIsEntry(es[j-1], m), 1, 0))
+
+// collectHeadings: exactly the entries of the body, each once, in body order, with the paragraph's text and level
+// (the page number is the constant 1; the bookmark id goes through strings.ReplaceAll and is not specified).
+//@ func (*Document).collectHeadings
+//@ props C15
+//@ appendfacts
+//@ requires d != nil && d.Body != nil && elemsOK(d.Body.Elements)
+//@ modifies nothing
+//@ ensures len(result) == old(tocCount(d.Body.Elements, len(d.Body.Elements), maxLevel))
+//@ ensures cap(result) == 0 || freshArr(result)
+//@ ensures forall j int :: 0 <= j && j < old(len(d.Body.Elements)) && old(tocIsEntry(d.Body.Elements[j], maxLevel)) ==> 0 <= old(tocCount(d.Body.Elements, j, maxLevel)) && old(tocCount(d.Body.Elements, j, maxLevel)) < len(result)
+//@ ensures forall j int :: 0 <= j && j < old(len(d.Body.Elements)) && old(tocIsEntry(d.Body.Elements[j], maxLevel)) ==> result[old(tocCount(d.Body.Elements, j, maxLevel))].Text == old(tocText(d.Body.Elements[j].(*Paragraph))) && result[old(tocCount(d.Body.Elements, j, maxLevel))].Level == old(tocLevel(d.Body.Elements[j].(*Paragraph))) && result[old(tocCount(d.Body.Elements, j, maxLevel))].PageNum == 1
+//@ loop 1
+//@   invariant 0 <= #i && #i <= len(d.Body.Elements) && unchangedHeap() && d != nil && d.Body != nil
+//@   invariant len(entries) == old(tocCount(d.Body.Elements, #i, maxLevel))
+//@   invariant cap(entries) == 0 || arr(entries) >= old(allocBound())
+//@   invariant forall j int :: 0 <= j && j <= #i ==> 0 <= old(tocCount(d.Body.Elements, j, maxLevel))
+//@   invariant forall j int :: 0 <= j && j < #i && old(tocIsEntry(d.Body.Elements[j], maxLevel)) ==> old(tocCount(d.Body.Elements, j, maxLevel)) < len(entries)
+//@   invariant forall j int :: 0 <= j && j < #i && old(tocIsEntry(d.Body.Elements[j], maxLevel)) ==> entries[old(tocCount(d.Body.Elements, j, maxLevel))].Text == old(tocText(d.Body.Elements[j].(*Paragraph))) && entries[old(tocCount(d.Body.Elements, j, maxLevel))].Level == old(tocLevel(d.Body.Elements[j].(*Paragraph))) && entries[old(tocCount(d.Body.Elements, j, maxLevel))].PageNum == 1
+//@   decreases len(d.Body.Elements) - #i
+
+// ---- the TOC content control ---------------------------------------------------------------------------------
+// isTOCSDT(x): body element x is a content control of the "Table of Contents" gallery (what findTOCSDT looks for).
+//@ spec isSDT(x any) bool = typeIs(x, "*SDT")
+//@ spec tocGallery(s *SDT) bool = s.Properties != nil && s.Properties.DocPartObj != nil && s.Properties.DocPartObj.DocPartGallery != nil && s.Properties.DocPartObj.DocPartGallery.Val == "Table of Contents"
+//@ spec isTOCSDT(x any) bool = isSDT(x) && tocGallery(x.(*SDT))
+
+// CreateTOCSDT: a new control of that gallery whose content is the bookmark start and the title paragraph.
+//@ func (*Document).CreateTOCSDT
+//@ props C15
+//@ appendfacts
+//@ modifies nothing
+//@ ensures fresh(result) && tocGallery(result) && result.Content != nil && fresh(result.Content)
+//@ ensures len(result.Content.Elements) == 2 && freshArr(result.Content.Elements) && arr(result.Content.Elements) > 0 && arr(result.Content.Elements) < allocBound()
+//@ ensures typeIs(result.Content.Elements[0], "*BookmarkStart") && isPara(result.Content.Elements[1]) && fresh(result.Content.Elements[1].(*Paragraph))
+//@ ensures len(result.Content.Elements[1].(*Paragraph).Runs) == 1 && result.Content.Elements[1].(*Paragraph).Runs[0].Text.Content == title && arr(result.Content.Elements[1].(*Paragraph).Runs) > 0 && arr(result.Content.Elements[1].(*Paragraph).Runs) < allocBound()
+//@ ensures result.Content.Elements[1].(*Paragraph).Properties != nil && result.Content.Elements[1].(*Paragraph).Properties.ParagraphStyle == nil
+
+// tocEntryLevel(l): the level an entry is filed under (1..9; fix 0ed3639 clamps what lies outside).
+//@ spec tocEntryLevel(l int) int = ite(l < 1, 1, ite(l > 9, 9, l))
+
+// AddTOCEntry appends exactly two elements: the placeholder control holding the entry text, and the entry
+// paragraph with the TOC style of the level - itoa(12 + level), one of "13".."21", all defined by the style
+// registry (style.styTOCIds, C13) - a tab and the page number. Everything that was in the control stays in place.
+//@ func (*SDT).AddTOCEntry
+//@ props C15, C13
+//@ appendfacts
+//@ requires sdt != nil && sdt.Content != nil
+//@ ensures len(sdt.Content.Elements) == old(len(sdt.Content.Elements)) + 2
+//@ ensures forall j int :: 0 <= j && j < old(len(sdt.Content.Elements)) ==> sdt.Content.Elements[j] == old(sdt.Content.Elements[j])
+//@ ensures isSDT(sdt.Content.Elements[old(len(sdt.Content.Elements))]) && fresh(sdt.Content.Elements[old(len(sdt.Content.Elements))].(*SDT))
+//@ ensures sdt.Content.Elements[old(len(sdt.Content.Elements))].(*SDT).Content != nil && len(sdt.Content.Elements[old(len(sdt.Content.Elements))].(*SDT).Content.Elements) == 1 && typeIs(sdt.Content.Elements[old(len(sdt.Content.Elements))].(*SDT).Content.Elements[0], "Run") && sdt.Content.Elements[old(len(sdt.Content.Elements))].(*SDT).Content.Elements[0].(Run).Text.Content == text
+//@ ensures isPara(sdt.Content.Elements[old(len(sdt.Content.Elements)) + 1]) && fresh(sdt.Content.Elements[old(len(sdt.Content.Elements)) + 1].(*Paragraph))
+//@ ensures sdt.Content.Elements[old(len(sdt.Content.Elements)) + 1].(*Paragraph).Properties != nil && sdt.Content.Elements[old(len(sdt.Content.Elements)) + 1].(*Paragraph).Properties.ParagraphStyle != nil && sdt.Content.Elements[old(len(sdt.Content.Elements)) + 1].(*Paragraph).Properties.ParagraphStyle.Val == itoa(12 + tocEntryLevel(level))
+//@ ensures len(sdt.Content.Elements[old(len(sdt.Content.Elements)) + 1].(*Paragraph).Runs) == 2 && sdt.Content.Elements[old(len(sdt.Content.Elements)) + 1].(*Paragraph).Runs[0].Text.Content == "\t" && sdt.Content.Elements[old(len(sdt.Content.Elements)) + 1].(*Paragraph).Runs[1].Text.Content == itoa(pageNum)
+//@ ensures unchangedExcept("SDTContent.Elements", "cell:any")
+//@ ensures sdt.Content == old(sdt.Content) && sdt.Properties == old(sdt.Properties)
+//@ ensures forall c *SDTContent :: {c.Elements} allocated(c) && c != sdt.Content ==> c.Elements == old(c.Elements)
+//@ ensures forall p *any :: {deref(p)} allocated(p) && !(isElem(p) && arrOf(p) == old(arr(sdt.Content.Elements))) ==> deref(p) == old(deref(p))
+//@ ensures forall j int :: {sdt.Content.Elements[j]} 0 <= j && j < old(len(sdt.Content.Elements)) && old(tocPlaceholderIn(sdt.Content.Elements[j], sdt) && live(sdt.Content.Elements[j].(*SDT).Content) && arr(sdt.Content.Elements[j].(*SDT).Content.Elements) < allocBound()) ==> tocPlaceholderIn(sdt.Content.Elements[j], sdt) && live(sdt.Content.Elements[j].(*SDT).Content) && arr(sdt.Content.Elements[j].(*SDT).Content.Elements) < allocBound() && arr(sdt.Content.Elements[j].(*SDT).Content.Elements) == old(arr(sdt.Content.Elements[j].(*SDT).Content.Elements)) && tocPlaceholderText(sdt.Content.Elements[j]) == old(tocPlaceholderText(sdt.Content.Elements[j]))
+//@ ensures live(sdt.Content.Elements[old(len(sdt.Content.Elements))].(*SDT).Content) && sdt.Content.Elements[old(len(sdt.Content.Elements))].(*SDT).Content != sdt.Content
+//@ ensures tocPlaceholderIn(sdt.Content.Elements[old(len(sdt.Content.Elements))], sdt) && tocPlaceholderText(sdt.Content.Elements[old(len(sdt.Content.Elements))]) == text
+//@ ensures arr(sdt.Content.Elements[old(len(sdt.Content.Elements))].(*SDT).Content.Elements) != arr(sdt.Content.Elements) && arr(sdt.Content.Elements[old(len(sdt.Content.Elements))].(*SDT).Content.Elements) >= old(allocBound()) && arr(sdt.Content.Elements[old(len(sdt.Content.Elements))].(*SDT).Content.Elements) > 0 && arr(sdt.Content.Elements[old(len(sdt.Content.Elements))].(*SDT).Content.Elements) < allocBound()
+//@ ensures arr(sdt.Content.Elements) > 0 && arr(sdt.Content.Elements) < allocBound() && (arr(sdt.Content.Elements) == old(arr(sdt.Content.Elements)) || arr(sdt.Content.Elements) >= old(allocBound()))
+
+// FinalizeTOCSDT appends the bookmark end.
+//@ func (*SDT).FinalizeTOCSDT
+//@ props C15
+//@ appendfacts
+//@ requires sdt != nil && sdt.Content != nil
+//@ ensures len(sdt.Content.Elements) == old(len(sdt.Content.Elements)) + 1
+//@ ensures forall j int :: 0 <= j && j < old(len(sdt.Content.Elements)) ==> sdt.Content.Elements[j] == old(sdt.Content.Elements[j])
+//@ ensures typeIs(sdt.Content.Elements[old(len(sdt.Content.Elements))], "*BookmarkEnd")
+//@ ensures unchangedExcept("SDTContent.Elements", "cell:any")
+//@ ensures sdt.Content == old(sdt.Content) && sdt.Properties == old(sdt.Properties)
+//@ ensures arr(sdt.Content.Elements) > 0 && arr(sdt.Content.Elements) < allocBound() && (arr(sdt.Content.Elements) == old(arr(sdt.Content.Elements)) || arr(sdt.Content.Elements) >= old(allocBound()))
+//@ ensures forall c *SDTContent :: {c.Elements} allocated(c) && c != sdt.Content ==> c.Elements == old(c.Elements)
+//@ ensures forall p *any :: {deref(p)} allocated(p) && !(isElem(p) && arrOf(p) == old(arr(sdt.Content.Elements))) ==> deref(p) == old(deref(p))
+//@ ensures forall j int :: {sdt.Content.Elements[j]} 0 <= j && j < old(len(sdt.Content.Elements)) && old(tocPlaceholderIn(sdt.Content.Elements[j], sdt) && live(sdt.Content.Elements[j].(*SDT).Content) && arr(sdt.Content.Elements[j].(*SDT).Content.Elements) < allocBound()) ==> tocPlaceholderIn(sdt.Content.Elements[j], sdt) && live(sdt.Content.Elements[j].(*SDT).Content) && arr(sdt.Content.Elements[j].(*SDT).Content.Elements) < allocBound() && arr(sdt.Content.Elements[j].(*SDT).Content.Elements) == old(arr(sdt.Content.Elements[j].(*SDT).Content.Elements)) && tocPlaceholderText(sdt.Content.Elements[j]) == old(tocPlaceholderText(sdt.Content.Elements[j]))
+
+// tocFirstFrom(es, j): index of the first TOC control among es[j:], -1 when there is none; tocFirstFrom(es, 0) is
+// "the" TOC control UpdateTOC works on.
+//@ spec tocFirstFrom(es []any, j int) int = ite(j < 0 || j >= len(es), -1, ite(isTOCSDT(es[j]), j, tocFirstFrom(es, j + 1)))
+
+// findTOCSDT: the first TOC control of the body and its index, or (nil, -1) when there is none.
+//@ func (*Document).findTOCSDT
+//@ props C15
+//@ requires d != nil && d.Body != nil && elemsOK(d.Body.Elements)
+//@ modifies nothing
+//@ ensures result0 == nil <==> result1 == -1
+//@ ensures result1 == tocFirstFrom(d.Body.Elements, 0)
+//@ ensures result0 == nil ==> forall q int :: 0 <= q && q < len(d.Body.Elements) ==> !isTOCSDT(d.Body.Elements[q])
+//@ ensures result0 != nil ==> 0 <= result1 && result1 < len(d.Body.Elements) && isTOCSDT(d.Body.Elements[result1]) && d.Body.Elements[result1].(*SDT) == result0 && (forall q int :: 0 <= q && q < result1 ==> !isTOCSDT(d.Body.Elements[q]))
+//@ loop 1
+//@   invariant 0 <= #i && #i <= len(d.Body.Elements) && unchangedHeap() && d != nil && d.Body != nil
+//@   invariant forall q int :: 0 <= q && q < #i ==> !isTOCSDT(d.Body.Elements[q])
+//@   invariant tocFirstFrom(d.Body.Elements, 0) == tocFirstFrom(d.Body.Elements, #i)
+//@   decreases len(d.Body.Elements) - #i
+
+// ---- GenerateTOC -------------------------------------------------------------------------------------------
+// tocEntryOK(e1, e2, text, level): the two content elements of one entry: placeholder control with the text, entry
+// paragraph with the TOC style of the level.
+//@ spec tocPlaceholderShape(x any) bool = isSDT(x) && x.(*SDT).Content != nil && len(x.(*SDT).Content.Elements) == 1 && typeIs(x.(*SDT).Content.Elements[0], "Run")
+//@ spec tocPlaceholderText(x any) string = x.(*SDT).Content.Elements[0].(Run).Text.Content
+// tocPlaceholderIn(x, host): x is a placeholder control whose own content container and element array are not those of
+// the control `host` it is listed in (what AddTOCEntry creates); such an element survives later appends to host.
+//@ spec tocPlaceholderIn(x any, host *SDT) bool = tocPlaceholderShape(x) && x.(*SDT).Content != host.Content && arr(x.(*SDT).Content.Elements) != arr(host.Content.Elements) && arr(x.(*SDT).Content.Elements) > 0
+//@ spec tocEntryParaOK(x any, level int) bool = isPara(x) && x.(*Paragraph).Properties != nil && x.(*Paragraph).Properties.ParagraphStyle != nil && x.(*Paragraph).Properties.ParagraphStyle.Val == itoa(12 + tocEntryLevel(level))
+
+// GenerateTOC appends one new TOC control to the body (every earlier element stays). Its content is: bookmark
+// start, title paragraph, then for the n = tocCount(body, maxLevel) entries of the body - in body order - the
+// placeholder with the heading's text followed by the entry paragraph styled for the heading's level, then the
+// bookmark end: 3 + 2n elements, the entry of body element j at 2 + 2*tocCount(body, j).
+//@ spec tocMax(config *TOCConfig) int = ite(config == nil, 3, config.MaxLevel)
+//@ spec tocTitleOK(x any, title string) bool = isPara(x) && len(x.(*Paragraph).Runs) == 1 && x.(*Paragraph).Runs[0].Text.Content == title && x.(*Paragraph).Properties != nil && x.(*Paragraph).Properties.ParagraphStyle == nil
+//@ func (*Document).GenerateTOC
+//@ props C15
+//@ appendfacts
+//@ requires d != nil && d.Body != nil && elemsOK(d.Body.Elements)
+//@ ensures result == nil
+//@ ensures len(d.Body.Elements) == old(len(d.Body.Elements)) + 1
+//@ ensures forall j int :: 0 <= j && j < old(len(d.Body.Elements)) ==> d.Body.Elements[j] == old(d.Body.Elements[j])
+//@ ensures isTOCSDT(d.Body.Elements[old(len(d.Body.Elements))]) && fresh(d.Body.Elements[old(len(d.Body.Elements))].(*SDT)) && d.Body.Elements[old(len(d.Body.Elements))].(*SDT).Content != nil
+//@ ensures len(d.Body.Elements[old(len(d.Body.Elements))].(*SDT).Content.Elements) == 3 + 2 * old(tocCount(d.Body.Elements, len(d.Body.Elements), tocMax(config)))
+//@ ensures forall j int :: 0 <= j && j < old(len(d.Body.Elements)) && old(tocIsEntry(d.Body.Elements[j], tocMax(config))) ==> isSDT(d.Body.Elements[old(len(d.Body.Elements))].(*SDT).Content.Elements[2 + 2 * old(tocCount(d.Body.Elements, j, tocMax(config)))]) && d.Body.Elements[old(len(d.Body.Elements))].(*SDT).Content.Elements[2 + 2 * old(tocCount(d.Body.Elements, j, tocMax(config)))].(*SDT).Content != nil
+//@ ensures forall j int :: 0 <= j && j < old(len(d.Body.Elements)) && old(tocIsEntry(d.Body.Elements[j], tocMax(config))) ==> len(d.Body.Elements[old(len(d.Body.Elements))].(*SDT).Content.Elements[2 + 2 * old(tocCount(d.Body.Elements, j, tocMax(config)))].(*SDT).Content.Elements) == 1
+//@ ensures forall j int :: 0 <= j && j < old(len(d.Body.Elements)) && old(tocIsEntry(d.Body.Elements[j], tocMax(config))) ==> typeIs(d.Body.Elements[old(len(d.Body.Elements))].(*SDT).Content.Elements[2 + 2 * old(tocCount(d.Body.Elements, j, tocMax(config)))].(*SDT).Content.Elements[0], "Run")
+//@ ensures forall j int :: 0 <= j && j < old(len(d.Body.Elements)) && old(tocIsEntry(d.Body.Elements[j], tocMax(config))) ==> tocPlaceholderText(d.Body.Elements[old(len(d.Body.Elements))].(*SDT).Content.Elements[2 + 2 * old(tocCount(d.Body.Elements, j, tocMax(config)))]) == old(tocText(d.Body.Elements[j].(*Paragraph)))
+//@ ensures forall j int :: 0 <= j && j < old(len(d.Body.Elements)) && old(tocIsEntry(d.Body.Elements[j], tocMax(config))) ==> tocEntryParaOK(d.Body.Elements[old(len(d.Body.Elements))].(*SDT).Content.Elements[3 + 2 * old(tocCount(d.Body.Elements, j, tocMax(config)))], old(tocLevel(d.Body.Elements[j].(*Paragraph))))
+//@ ensures typeIs(d.Body.Elements[old(len(d.Body.Elements))].(*SDT).Content.Elements[2 + 2 * old(tocCount(d.Body.Elements, len(d.Body.Elements), tocMax(config)))], "*BookmarkEnd")
+//@ ensures typeIs(d.Body.Elements[old(len(d.Body.Elements))].(*SDT).Content.Elements[0], "*BookmarkStart") && tocTitleOK(d.Body.Elements[old(len(d.Body.Elements))].(*SDT).Content.Elements[1], ite(config == nil, "目录", config.Title))
+//@ ensures unchangedExcept("Body.Elements", "cell:any")
+//@ loop 1
+//@   invariant 0 <= #i && #i <= len(entries) && unchangedHeap() && d != nil && d.Body != nil
+//@   invariant tocSDT != nil && fresh(tocSDT) && tocGallery(tocSDT) && tocSDT.Content != nil && fresh(tocSDT.Content)
+//@   invariant len(tocSDT.Content.Elements) == 2 + 2 * #i && arr(tocSDT.Content.Elements) > 0 && arr(tocSDT.Content.Elements) >= old(allocBound()) && arr(tocSDT.Content.Elements) < allocBound()
+//@   invariant cap(entries) == 0 || (arr(entries) >= old(allocBound()) && arr(entries) < allocBound())
+//@   invariant forall k int :: {entries[k]} 0 <= k && k < len(entries) ==> entries[k].Text == old(entries[k].Text) && entries[k].Level == old(entries[k].Level) && entries[k].PageNum == old(entries[k].PageNum)
+//@   invariant typeIs(tocSDT.Content.Elements[0], "*BookmarkStart") && tocTitleOK(tocSDT.Content.Elements[1], ite(old(config) == nil, "目录", old(config).Title))
+//@   invariant arr(tocSDT.Content.Elements[1].(*Paragraph).Runs) > 0 && arr(tocSDT.Content.Elements[1].(*Paragraph).Runs) < allocBound()
+//@   invariant forall k int :: {entries[k]} 0 <= k && k < #i ==> tocPlaceholderIn(tocSDT.Content.Elements[2 + 2 * k], tocSDT) && live(tocSDT.Content.Elements[2 + 2 * k].(*SDT).Content) && arr(tocSDT.Content.Elements[2 + 2 * k].(*SDT).Content.Elements) < allocBound() && arr(tocSDT.Content.Elements[2 + 2 * k].(*SDT).Content.Elements) >= old(allocBound()) && tocPlaceholderText(tocSDT.Content.Elements[2 + 2 * k]) == entries[k].Text
+//@   invariant forall k int :: {entries[k]} 0 <= k && k < #i ==> tocEntryParaOK(tocSDT.Content.Elements[3 + 2 * k], entries[k].Level)
+//@   decreases len(entries) - #i
+
+// ---- UpdateTOC ---------------------------------------------------------------------------------------------
+// Paragraph-style tables of contents (paragraphs whose style id starts with "TOC", as Word writes them).
+//@ spec isTOCPara(x any) bool = isPara(x) && x.(*Paragraph).Properties != nil && x.(*Paragraph).Properties.ParagraphStyle != nil && strings.HasPrefix(x.(*Paragraph).Properties.ParagraphStyle.Val, "TOC")
+
+//@ func (*Document).findTOCStart
+//@ props C15
+//@ requires d != nil && d.Body != nil && elemsOK(d.Body.Elements)
+//@ modifies nothing
+//@ ensures result == -1 ==> forall q int :: 0 <= q && q < len(d.Body.Elements) ==> !isTOCPara(d.Body.Elements[q])
+//@ ensures result != -1 ==> 0 <= result && result < len(d.Body.Elements) && isTOCPara(d.Body.Elements[result]) && (forall q int :: 0 <= q && q < result ==> !isTOCPara(d.Body.Elements[q]))
+//@ loop 1
+//@   invariant 0 <= #i && #i <= len(d.Body.Elements) && unchangedHeap() && d != nil && d.Body != nil
+//@   invariant forall q int :: 0 <= q && q < #i ==> !isTOCPara(d.Body.Elements[q])
+//@   decreases len(d.Body.Elements) - #i
+
+// removeTOCEntries(start) removes the maximal run of TOC-styled paragraphs that begins at `start` and nothing else:
+// every element before it and every element from the first non-TOC element on is kept, in order (before fix
+// 7f68a84 unstyled paragraphs and tables after the run were removed as well).
+//@ func (*Document).removeTOCEntries
+//@ props C15, C08
+//@ appendfacts
+//@ requires d != nil && d.Body != nil && elemsOK(d.Body.Elements) && 0 <= startIndex && startIndex <= len(d.Body.Elements)
+//@ ensures exists e int :: startIndex <= e && e <= old(len(d.Body.Elements)) && (forall q int :: startIndex <= q && q < e ==> old(isTOCPara(d.Body.Elements[q]))) && (e == old(len(d.Body.Elements)) || !old(isTOCPara(d.Body.Elements[e]))) && len(d.Body.Elements) == old(len(d.Body.Elements)) - (e - startIndex) && (forall j int :: 0 <= j && j < len(d.Body.Elements) ==> d.Body.Elements[j] == old(d.Body.Elements[ite(j < startIndex, j, j + (e - startIndex))]))
+//@ ensures unchangedExcept("Body.Elements", "cell:any")
+//@ ensures forall b *Body :: allocated(b) && b != d.Body ==> b.Elements == old(b.Elements)
+//@ ensures forall p *any :: {deref(p)} allocated(p) ==> deref(p) == old(deref(p))
+//@ loop 1
+//@   invariant startIndex <= i && i <= len(d.Body.Elements) && unchangedHeap() && d != nil && d.Body != nil
+//@   invariant len(newElements) == startIndex && (cap(newElements) == 0 || arr(newElements) >= old(allocBound()))
+//@   invariant forall j int :: 0 <= j && j < startIndex ==> newElements[j] == old(d.Body.Elements[j])
+//@   invariant forall q int :: startIndex <= q && q < i ==> old(isTOCPara(d.Body.Elements[q]))
+//@   decreases len(d.Body.Elements) - i
+
+// addTOCEntry (paragraph-style TOC): one new paragraph at the end of the body, styled "TOC<level>", whose first run
+// is the entry text. (C13: the ids TOC1..TOC9 are not defined by the library's own style registry - they are the ids
+// Word uses, and this path only runs on a document that already has a paragraph with such an id; see the report.)
+//@ func (*Document).addTOCEntry
+//@ props C15
+//@ appendfacts
+//@ requires d != nil && d.Body != nil && config != nil
+//@ ensures result == nil
+//@ ensures len(d.Body.Elements) == old(len(d.Body.Elements)) + 1
+//@ ensures forall j int :: 0 <= j && j < old(len(d.Body.Elements)) ==> d.Body.Elements[j] == old(d.Body.Elements[j])
+//@ ensures isPara(d.Body.Elements[old(len(d.Body.Elements))]) && fresh(d.Body.Elements[old(len(d.Body.Elements))].(*Paragraph))
+//@ ensures d.Body.Elements[old(len(d.Body.Elements))].(*Paragraph).Properties != nil && d.Body.Elements[old(len(d.Body.Elements))].(*Paragraph).Properties.ParagraphStyle != nil && d.Body.Elements[old(len(d.Body.Elements))].(*Paragraph).Properties.ParagraphStyle.Val == sprintf("TOC%d", entry.Level)
+//@ ensures len(d.Body.Elements[old(len(d.Body.Elements))].(*Paragraph).Runs) == ite(config.ShowPageNum, 2, 1) && d.Body.Elements[old(len(d.Body.Elements))].(*Paragraph).Runs[0].Text.Content == entry.Text
+//@ ensures unchangedExcept("Body.Elements", "cell:any")
+
+// UpdateTOC.
+// tocSDTsOK: every TOC control of the body has a content container (the library's builders always create one; the
+// reader never produces content controls).
+//@ spec tocSDTsOK(es []any) bool = forall q int :: {es[q]} 0 <= q && q < len(es) && isTOCSDT(es[q]) ==> es[q].(*SDT).Content != nil
+//@ spec firstTOCSDTAt(es []any, p int) bool = 0 <= p && p < len(es) && isTOCSDT(es[p]) && (forall q int :: 0 <= q && q < p ==> !isTOCSDT(es[q]))
+//@ spec noTOCSDT(es []any) bool = forall q int :: 0 <= q && q < len(es) ==> !isTOCSDT(es[q])
+//@ spec noTOCPara(es []any) bool = forall q int :: 0 <= q && q < len(es) ==> !isTOCPara(es[q])
+//
+// The clauses name the control through the ground term tocFirstFrom(body, 0) (what findTOCSDT returns) rather than
+// through a quantified "first index p": with the index quantified the solvers needed 25-55 s per clause to
+// re-derive p == tocIndex from an instantiation, with the ground term every clause is decided in about 3 s.
+// (a) no TOC of either kind: an error, nothing is modified.
+// (b) a TOC control exists: the FIRST one is rebuilt in place from the headings up to level 3 (the default
+//     configuration) - it stays the same object at the same body index, no body element is added, removed or moved,
+//     no other content control is touched, and its new content is exactly what GenerateTOC(nil) would build: bookmark
+//     start, title, two elements per heading in body order, bookmark end. Running it again therefore rebuilds the
+//     same shape from the same headings (the body cells and every paragraph are unchanged by the call): idempotence.
+//     FINDING (reported, not repaired): the level and title the TOC was generated with are not remembered -
+//     GenerateTOC(&TOCConfig{MaxLevel: 5, Title: "My"}) followed by UpdateTOC() drops the level-4/5 entries and
+//     resets the title.
+// (c) only a paragraph-style TOC exists: the old entries are removed (removeTOCEntries) and one paragraph per heading
+//     is appended at the END of the body (addTOCEntry); only err == nil and absence of panics are stated for this
+//     path, because telling "TOC..." ids from heading ids needs the semantics of strings.HasPrefix/ToLower.
+//@ func (*Document).UpdateTOC
+//@ props C15
+//@ appendfacts
+//@ requires d != nil && d.Body != nil && elemsOK(d.Body.Elements) && tocSDTsOK(d.Body.Elements)
+//@ ensures old(tocFirstFrom(d.Body.Elements, 0)) < 0 && old(noTOCPara(d.Body.Elements)) ==> result != nil && unchangedHeap()
+//@ ensures old(tocFirstFrom(d.Body.Elements, 0)) >= 0 || !old(noTOCPara(d.Body.Elements)) ==> result == nil
+//@ ensures old(tocFirstFrom(d.Body.Elements, 0)) >= 0 ==> len(d.Body.Elements) == old(len(d.Body.Elements)) && d.Body.Elements == old(d.Body.Elements)
+//@ ensures old(tocFirstFrom(d.Body.Elements, 0)) >= 0 ==> forall j int :: 0 <= j && j < len(d.Body.Elements) && j != old(tocFirstFrom(d.Body.Elements, 0)) ==> d.Body.Elements[j] == old(d.Body.Elements[j])
+//@ ensures old(tocFirstFrom(d.Body.Elements, 0)) >= 0 ==> isTOCSDT(d.Body.Elements[old(tocFirstFrom(d.Body.Elements, 0))]) && d.Body.Elements[old(tocFirstFrom(d.Body.Elements, 0))].(*SDT) == old(d.Body.Elements[tocFirstFrom(d.Body.Elements, 0)].(*SDT)) && d.Body.Elements[old(tocFirstFrom(d.Body.Elements, 0))].(*SDT).Content == old(d.Body.Elements[old(tocFirstFrom(d.Body.Elements, 0))].(*SDT).Content)
+//@ ensures old(tocFirstFrom(d.Body.Elements, 0)) >= 0 ==> len(old(d.Body.Elements[tocFirstFrom(d.Body.Elements, 0)].(*SDT)).Content.Elements) == 3 + 2 * old(tocCount(d.Body.Elements, len(d.Body.Elements), 3))
+//@ ensures old(tocFirstFrom(d.Body.Elements, 0)) >= 0 ==> typeIs(old(d.Body.Elements[tocFirstFrom(d.Body.Elements, 0)].(*SDT)).Content.Elements[0], "*BookmarkStart") && tocTitleOK(old(d.Body.Elements[tocFirstFrom(d.Body.Elements, 0)].(*SDT)).Content.Elements[1], "目录") && typeIs(old(d.Body.Elements[tocFirstFrom(d.Body.Elements, 0)].(*SDT)).Content.Elements[2 + 2 * old(tocCount(d.Body.Elements, len(d.Body.Elements), 3))], "*BookmarkEnd")
+//@ ensures old(tocFirstFrom(d.Body.Elements, 0)) >= 0 ==> forall j int :: 0 <= j && j < old(len(d.Body.Elements)) && old(tocIsEntry(d.Body.Elements[j], 3)) ==> isSDT(old(d.Body.Elements[tocFirstFrom(d.Body.Elements, 0)].(*SDT)).Content.Elements[2 + 2 * old(tocCount(d.Body.Elements, j, 3))]) && old(d.Body.Elements[tocFirstFrom(d.Body.Elements, 0)].(*SDT)).Content.Elements[2 + 2 * old(tocCount(d.Body.Elements, j, 3))].(*SDT).Content != nil
+//@ ensures old(tocFirstFrom(d.Body.Elements, 0)) >= 0 ==> forall j int :: 0 <= j && j < old(len(d.Body.Elements)) && old(tocIsEntry(d.Body.Elements[j], 3)) ==> len(old(d.Body.Elements[tocFirstFrom(d.Body.Elements, 0)].(*SDT)).Content.Elements[2 + 2 * old(tocCount(d.Body.Elements, j, 3))].(*SDT).Content.Elements) == 1
+//@ ensures old(tocFirstFrom(d.Body.Elements, 0)) >= 0 ==> forall j int :: 0 <= j && j < old(len(d.Body.Elements)) && old(tocIsEntry(d.Body.Elements[j], 3)) ==> typeIs(old(d.Body.Elements[tocFirstFrom(d.Body.Elements, 0)].(*SDT)).Content.Elements[2 + 2 * old(tocCount(d.Body.Elements, j, 3))].(*SDT).Content.Elements[0], "Run")
+//@ ensures old(tocFirstFrom(d.Body.Elements, 0)) >= 0 ==> forall j int :: 0 <= j && j < old(len(d.Body.Elements)) && old(tocIsEntry(d.Body.Elements[j], 3)) ==> tocPlaceholderText(old(d.Body.Elements[tocFirstFrom(d.Body.Elements, 0)].(*SDT)).Content.Elements[2 + 2 * old(tocCount(d.Body.Elements, j, 3))]) == old(tocText(d.Body.Elements[j].(*Paragraph)))
+//@ ensures old(tocFirstFrom(d.Body.Elements, 0)) >= 0 ==> forall j int :: 0 <= j && j < old(len(d.Body.Elements)) && old(tocIsEntry(d.Body.Elements[j], 3)) ==> tocEntryParaOK(old(d.Body.Elements[tocFirstFrom(d.Body.Elements, 0)].(*SDT)).Content.Elements[3 + 2 * old(tocCount(d.Body.Elements, j, 3))], old(tocLevel(d.Body.Elements[j].(*Paragraph))))
+//@ ensures old(tocFirstFrom(d.Body.Elements, 0)) >= 0 ==> unchangedExcept("SDTContent.Elements", "cell:any")
+//@ ensures old(tocFirstFrom(d.Body.Elements, 0)) >= 0 ==> forall c *SDTContent :: allocated(c) && c != old(d.Body.Elements[tocFirstFrom(d.Body.Elements, 0)].(*SDT).Content) ==> c.Elements == old(c.Elements)
+//@ loop 1
+//@   invariant 0 <= #i && #i <= len(entries) && d != nil && d.Body != nil && config != nil
+//@   decreases len(entries) - #i
+//@ loop 2
+//@   invariant 0 <= #i && #i <= len(entries) && d != nil && d.Body != nil && unchangedExcept("SDTContent.Elements", "cell:any")
+//@   invariant tocIndex == old(tocFirstFrom(d.Body.Elements, 0)) && 0 <= tocIndex && tocIndex < old(len(d.Body.Elements)) && old(isTOCSDT(d.Body.Elements[tocIndex])) && tocSDT != nil && tocSDT == old(d.Body.Elements[tocIndex].(*SDT)) && tocSDT.Content != nil && tocSDT.Content == old(d.Body.Elements[tocIndex].(*SDT).Content) && tocGallery(tocSDT)
+//@   invariant d.Body.Elements == old(d.Body.Elements)
+//@   invariant forall c *SDTContent :: {c.Elements} allocated(c) && c != tocSDT.Content ==> c.Elements == old(c.Elements)
+//@   invariant forall j int :: {d.Body.Elements[j]} 0 <= j && j < len(d.Body.Elements) ==> d.Body.Elements[j] == old(d.Body.Elements[j])
+//@   invariant len(tocSDT.Content.Elements) == 2 + 2 * #i && arr(tocSDT.Content.Elements) > 0 && arr(tocSDT.Content.Elements) >= old(allocBound()) && arr(tocSDT.Content.Elements) < allocBound()
+//@   invariant cap(entries) == 0 || (arr(entries) >= old(allocBound()) && arr(entries) < allocBound())
+//@   invariant len(entries) == old(tocCount(d.Body.Elements, len(d.Body.Elements), 3))
+//@   invariant forall j int :: {old(d.Body.Elements[j])} 0 <= j && j < old(len(d.Body.Elements)) && old(tocIsEntry(d.Body.Elements[j], 3)) ==> 0 <= old(tocCount(d.Body.Elements, j, 3)) && old(tocCount(d.Body.Elements, j, 3)) < len(entries) && entries[old(tocCount(d.Body.Elements, j, 3))].Text == old(tocText(d.Body.Elements[j].(*Paragraph))) && entries[old(tocCount(d.Body.Elements, j, 3))].Level == old(tocLevel(d.Body.Elements[j].(*Paragraph)))
+//@   invariant typeIs(tocSDT.Content.Elements[0], "*BookmarkStart") && tocTitleOK(tocSDT.Content.Elements[1], "目录")
+//@   invariant arr(tocSDT.Content.Elements[1].(*Paragraph).Runs) > 0 && arr(tocSDT.Content.Elements[1].(*Paragraph).Runs) < allocBound() && fresh(tocSDT.Content.Elements[1].(*Paragraph))
+//@   invariant forall k int :: {entries[k]} 0 <= k && k < #i ==> tocPlaceholderIn(tocSDT.Content.Elements[2 + 2 * k], tocSDT) && live(tocSDT.Content.Elements[2 + 2 * k].(*SDT).Content) && arr(tocSDT.Content.Elements[2 + 2 * k].(*SDT).Content.Elements) < allocBound() && arr(tocSDT.Content.Elements[2 + 2 * k].(*SDT).Content.Elements) >= old(allocBound()) && tocPlaceholderText(tocSDT.Content.Elements[2 + 2 * k]) == entries[k].Text
+//@   invariant forall k int :: {entries[k]} 0 <= k && k < #i ==> tocEntryParaOK(tocSDT.Content.Elements[3 + 2 * k], entries[k].Level)
+//@   decreases len(entries) - #i
